@@ -164,9 +164,9 @@ def _gen(ctx, pkg):
         else:
             pan3 = [b for b in dump("3 names, 2 snapshots, <= 1 panic", gen_cfg(["a", "b", "c"], "Names3", ["K1", "K2"], [], "SupKinds", [1, 2], 2, 1), 2)
                     if any(st["pan"] for st in b)]
-            behs += rng.sample(pan3, min(len(pan3), 5000))
+            behs += rng.sample(pan3, min(len(pan3), 8000))
             behs += dump("2 names, 3 snapshots, no panic", gen_cfg(["a", "b"], "Names2", ["K1", "K2"], [], "SupKinds", [1, 2], 3, 0), 3)
-            behs += sim(gen_cfg(["a", "b", "c"], "Names3", ["K1", "K2"], [], "SupKinds", [1, 2], 3, 2, False), 5000)
+            behs += sim(gen_cfg(["a", "b", "c"], "Names3", ["K1", "K2"], [], "SupKinds", [1, 2], 3, 2, False), 8000)
     else:
         behs += dump("2 names, 2 snapshots, controller + gate + pipeline-category kinds, no panic",
                      gen_cfg(["a", "b"], "Names2", ["K1"], ["G1", "P1"], "TrafKinds", [1, 2], 2, 0), 2)
@@ -176,7 +176,7 @@ def _gen(ctx, pkg):
             behs += [b for b in dump("2 names, 2 snapshots, <= 1 panic", gen_cfg(["a", "b"], "Names2", ["K1"], ["G1", "P1"], "TrafKinds", [1, 2], 2, 1), 2)
                      if any(st["pan"] for st in b)]
             behs += dump("3 names, 2 snapshots, 1 version, no panic", gen_cfg(["a", "b", "c"], "Names3", ["K1"], ["G1", "P1"], "TrafKinds", [1], 2, 0), 2)
-            behs += sim(gen_cfg(["a", "b", "c"], "Names3", ["K1", "K2"], ["G1", "P1"], "TrafKinds4", [1, 2], 3, 2, False), 4000)
+            behs += sim(gen_cfg(["a", "b", "c"], "Names3", ["K1", "K2"], ["G1", "P1"], "TrafKinds4", [1, 2], 3, 2, False), 6000)
     rng.shuffle(behs)
     return behs, exhaustive
 
@@ -296,8 +296,11 @@ def _tv(ctx, pkg):
     sup = pkg == SUP
     biz, gate = (["K1", "K2"], []) if sup else (["K1", "K2"], ["G1", "P1"])
     # group A: the kind of a live name never changes; group B: arbitrary histories
-    groups = [("same-kind", 0, (12, 20) if ctx.quick else (80, 30)), ("kind-changes", 1, (4, 20) if ctx.quick else (24, 30))]
+    groups = [("same-kind", 0, (12, 20) if ctx.quick else (100, 30)), ("kind-changes", 1, (4, 20) if ctx.quick else (24, 30))]
+    last_group = False
     for gname, kc, (n, steps) in groups:
+        if last_group:
+            break
         tp = ctx.path("c20_%s_trace_%d.ndjson" % (short, kc))
         for attempt in (1, 2):
             rc, out = ctx.go_test(pkg, "^TestVerifC20Trace$", env={"VERIF_OUT": tp, "VERIF_N": n, "VERIF_STEPS": steps, "VERIF_NAMES": 3,
@@ -317,8 +320,9 @@ def _tv(ctx, pkg):
             ctx.violation({"kind": "stall", "pkg": short}, "a snapshot was not reconciled within 30 s (twice): barrier object never inherited",
                           ev[-30:])
             ev = [e for e in ev if e.get("ev") != "stall"]
+            last_group = True       # every further history would only time out again
         ctx.evals(n)
-        if sum(1 for e in ev if e.get("ev") == "cb") == 0:
+        if sum(1 for e in ev if e.get("ev") == "cb") == 0 and not last_group:
             ctx.inconclusive("C20: trace without callbacks in %s" % pkg)
         # validate; a rejected history is reported, cut out, and the rest validated again
         rounds = 0
